@@ -310,6 +310,44 @@ def run(repo: Repo, ctx) -> None:
         _compiler_calls(repo, ctx, wf, f'multitenant_worker.{mname}')
     _multitenant_sender(repo, ctx)
 
+    # ---- R2b every component is considered on every path --------------------
+    # (sent in full, or compared with its belief) before the callback /
+    # message is built - in both pools
+    from ..cfg import CFG as _CFG
+    for poolcls in ('AbstractPool', 'MultiTenantPool'):
+        pf = repo.find_method(f'{POOL}.{poolcls}', '_compute_compile_preargs')
+        g = _CFG(pf.node)
+        joins = [t.id for t in g.nodes if t.kind == 'test'
+                 and norm(t.ast) == 'to_update']
+        if not joins:
+            raise AnalysisError(f'C17.R2b: `if to_update` not found in '
+                                f'{poolcls}')
+        for cname in COMPONENTS:
+            cover = []
+            for n in g.nodes:
+                a = n.ast
+                if n.kind == 'test' and isinstance(a, ast.Compare) and \
+                        isinstance(a.ops[0], ast.IsNot) and not isinstance(
+                            a.comparators[0], ast.Constant):
+                    if comp(norm(a.comparators[0])) == cname:
+                        cover.append(n.id)
+                if n.kind == 'stmt' and isinstance(a, ast.Assign) and norm(
+                        a.targets[0]) == 'to_update' and isinstance(
+                            a.value, ast.Dict):
+                    if any(comp(norm(k)) == cname for k in a.value.keys):
+                        cover.append(n.id)
+            # the per-database components are legitimately all-or-nothing
+            # with the database record; global ones must be covered on
+            # every path
+            ok = bool(cover) and all(
+                g.always_before(j, cover) for j in joins)
+            ctx.ob('C17.R2', f'{poolcls}:considered-on-every-path={cname}',
+                   ok, f'{poolcls}._compute_compile_preargs has a path to '
+                   f'the message construction on which component {cname} '
+                   f'is neither sent in full nor compared with the worker\'s '
+                   f'believed value: the worker keeps a stale {cname}',
+                   pf.loc, sample=f'{len(cover)} covering sites')
+
     # ---- R3 ack discipline -------------------------------------------------
     ctx.floor('C17.R3', 5)
     bw = repo.cls(f'{POOL}.BaseWorker')
